@@ -2,14 +2,14 @@
 
 
 def run(ctx):
-    scen = ctx.gen("Importer", "Gen_Importer.tla", "Gen_Importer.cfg", "worlds", workers=4)
+    scen = ctx.gen("Importer", "Gen_Importer.tla", "Gen_Importer.cfg" if ctx.quick else "Gen_Importer_double.cfg", "worlds", workers=8, timeout=3000, heap="12g")
     ctx.sample(scen, 2)
     ctx.cov["samples"] = [{"world": s.get("world"), "fault": s.get("fault"), "strict": s.get("strict")} for s in ctx.cov["samples"] if isinstance(s, dict)]
     trace = ctx.execute("importer", scen, timeout_s=30)
     ctx.validate("Importer", "Trace_Importer.tla", "Trace_Importer.cfg", trace, "importer", parallel=8)
     ctx.cov["distinct_nontrivial"] = ctx.cov["traces_validated_against_impl"]
     ctx.finish("model_checking",
-               "12 resolvable import worlds on up to 3 files + root (units/component chains of depth 1-3, component needing imported units, component with an imported encapsulated child, units referencing imported units, diamond, repeated imports) "
+               "(thorough: single faults and every pair of file-status / removed-entity faults) 12 resolvable import worlds on up to 3 files + root (units/component chains of depth 1-3, component needing imported units, component with an imported encapsulated child, units referencing imported units, diamond, repeated imports) "
                "x every single fault (file missing / empty / '<' / truncated / text / foreign XML, referenced entity removed, every back edge that closes a cycle, a cycle of ordinary units inside an imported file) x {strict, permissive}, "
                "each followed by repair + removeAllModels + fresh resolution; TLC computes satisfiability as a least fixpoint and compares",
                ["files are materialised in a scratch directory by the executor", "for a local unit cycle only termination and absence of crashes are claimed", "a hang is a Hang event (30 s alarm), never accepted"])
